@@ -283,6 +283,83 @@ func TestVerifC10(t *testing.T) {
 			}
 			jobs = append(jobs, mc.ExploreJob(mc.Options{Job: fmt.Sprintf("breaker-around-retry/max%d", ma), MaxDev: -1}, run))
 		}
+		// a client request that is cancelled while its attempt (or back-off) is in flight still records exactly one
+		// outcome.  Kind-agnostic oracle (the statement does not say WHICH outcome a cancelled request records):
+		// window 2 / minimum 2 / threshold 50%: after two client requests of which at least one really failed the
+		// breaker must be open (two records, at least one failure, whatever the cancelled one counted as), and it
+		// must not be open after one request only
+		for _, ma := range []int{1, 2} {
+			ma := ma
+			run := func(c *mc.Ctx) {
+				defer vrand.Set(nil)
+				cfg := c10Cfg{ma, "random", 0, false, false}
+				y, pols := c10Spec(cfg, true)
+				p, err := vNewProxy(y, pols)
+				if err != nil {
+					c.Failf("spec-rejected", "%v\n%s", err, y)
+				}
+				fates := []string{"503", "neterr", "cancelled-in-attempt", "cancelled-in-back-off"}
+				if ma == 1 {
+					fates = fates[:3]
+				}
+				var fate string
+				ncalls := 0
+				fnSendRequest = func(r *http.Request, client *http.Client) (*http.Response, error) {
+					ncalls++
+					switch fate {
+					case "503", "cancelled-in-back-off":
+						return c10Resp(503), nil
+					case "neterr":
+						return nil, errC10Net
+					case "healthy":
+						return c10Resp(200), nil
+					}
+					<-r.Context().Done()
+					return nil, r.Context().Err()
+				}
+				vrand.Set(c)
+				do := func() (vProxyObs, int) {
+					before := ncalls
+					cctx, cancel := stdcontext.WithCancel(stdcontext.Background())
+					defer cancel()
+					if strings.HasPrefix(fate, "cancelled") {
+						go func() {
+							time.Sleep(10 * time.Millisecond) // inside the hanging attempt / inside the first back-off (>= 100 ms)
+							cancel()
+						}()
+					}
+					stdr, _ := http.NewRequestWithContext(cctx, "GET", "http://client.example/x", nil)
+					o := vHandle(p, stdr)
+					synctest.Wait()
+					return o, ncalls - before
+				}
+				realFailures := 0
+				var hist []string
+				for i := 1; i <= 2; i++ {
+					fate = fates[c.Choose(len(fates), "fate")]
+					hist = append(hist, fate)
+					if !strings.HasPrefix(fate, "cancelled") {
+						realFailures++
+					}
+					o, made := do()
+					c.Note("client request %d (%s): status %d result %q backend calls %d", i, fate, o.status, o.result, made)
+					if o.result == resultShortCircuited || made == 0 {
+						c.Failf("breaker-open-too-early", "window 2 / minimum 2: client request %d of %v was short-circuited (backend calls %d)", i, hist, made)
+					}
+				}
+				if realFailures == 0 {
+					c.Outcome("two-cancelled-requests")
+					return
+				}
+				fate = "healthy"
+				o, made := do()
+				if o.result != resultShortCircuited || made != 0 {
+					c.Failf("cancelled-request-not-recorded", "window 2 / minimum 2 / threshold 50%%: after client requests %v (each must record one outcome, at least one of them a failure) the breaker must be open, but the third request got result %q status %d with %d backend calls", hist, o.result, o.status, made)
+				}
+				c.Outcome(strings.Join(hist, "+"))
+			}
+			jobs = append(jobs, mc.ExploreJob(mc.Options{Job: fmt.Sprintf("breaker-cancelled-requests/max%d", ma), MaxDev: -1}, run))
+		}
 		mc.RunJobs("C10", jobs)
 	})
 }
